@@ -212,7 +212,9 @@ Section Run.
         else if ustr_eqb c (u "files") then (w, l, SL [sym "ok"; enc_world_files w])
         else if ustr_eqb c (u "manifests") then
           (w, l, SL [sym "ok"; SL (map (fun km => SL [SS (fst km); SL (map enc_entry (entries_of (snd km)))]) (l_loaded l))])
-        else if ustr_eqb c (u "updated") then (w, l, SL [sym "ok"; sstrs (l_updated l)])
+        else if ustr_eqb c (u "updated") then (w, l, SL [sym "ok"; sstrs (sorted_strs (l_updated l))])
+        (* harness-side observation point (bytes and st_mtime_ns are recorded by the harness): no effect here *)
+        else if ustr_eqb c (u "stamp") then (w, l, SL [sym "ok"; SL []])
         else (w, l, sym "bad-op")
     | _ => (w, l, sym "bad-op")
     end.
